@@ -273,7 +273,11 @@ fn clusters_text(lines: &[String], no_norm: bool, tokenized: bool) -> String {
     if v.is_empty() { "-".into() } else { v.join("/") }
 }
 
-const UNITS: &[&str] = &["a", "b", "Z", "1", "９", "あ", "い", "カ", "ｶ", "漢", "字", "𠮷", "。", " ", "/", "\\", "-", "ab", "e\u{301}", "🇯🇵", "\0", "ｱﾞ"];
+const UNITS: &[&str] = &["a", "b", "Z", "1", "９", "あ", "い", "カ", "ｶ", "漢", "字", "𠮷", "。", " ", "/", "\\", "-", "ab", "e\u{301}", "🇯🇵", "\0", "ｱﾞ", "｢", "－", "～", "ａ"];
+/// characters the normaliser replaces by characters of the same UTF-8 length (and unaffected neighbours): a line
+/// made of these keeps its byte length under normalisation although its text changes
+const SAMELEN: &[&str] = &["｢", "｣", "－", "～", "､", "｡", "･", "\u{2015}", "\u{2500}", "\u{2013}", "あ", "漢", "カ"];
+
 
 pub fn gen(out: &mut dyn std::io::Write, thorough: bool, seed: u64) {
     use crate::model::{gen_model, gen_tag_models, gen_text_tags, GenOpts};
@@ -293,6 +297,7 @@ pub fn gen(out: &mut dyn std::io::Write, thorough: bool, seed: u64) {
             lines.push(match r.below(6) {
                 0 => String::new(),
                 1 => (0..r.range(1, 6)).map(|_| *r.pick(UNITS)).collect(),
+                2 => (0..r.range(1, 6)).map(|_| *r.pick(SAMELEN)).collect(),
                 _ => gen_text_tags(&mut r, &m, &alpha, 10),
             });
         }
